@@ -304,6 +304,70 @@ pub fn inputs_c07(r: &mut Rng, n: usize, _tier: &str, out: &mut dyn Write) {
     }
 }
 
+fn f_days(r: &mut Rng) -> f64 {
+    // MJD-like day counts within +/- 10 000 years of 1900, various granularities
+    let base = 15020.0;
+    match r.below(6) {
+        0 => base + r.range_i64(-3_652_500, 3_652_500) as f64,
+        1 => base + r.range_i64(-3_652_500, 3_652_500) as f64 + 0.5,
+        2 => base + (r.range_i64(-3_652_500 * 86400, 3_652_500 * 86400) as f64) / 86400.0,
+        3 => *r.pick(&[15020.0, 51544.5, 0.0, 40587.0, 44244.0, 15019.999999, 15020.000001]),
+        4 => base + (r.next() as f64 / u64::MAX as f64 - 0.5) * 7_305_000.0,
+        _ => base + r.range_i64(-40000, 60000) as f64 + (r.below(86_400_000) as f64) / 86_400_000.0,
+    }
+}
+
+pub fn inputs_c17(r: &mut Rng, n: usize, _tier: &str, out: &mut dyn Write) {
+    const ACCD: [&str; 5] = ["to_jde_tai_duration", "to_jde_utc_duration", "to_jde_tt_duration", "to_mjd_tt_duration", "to_tt_since_j2k"];
+    const ACCF: [&str; 22] = ["to_mjd_tai_days", "to_mjd_tai_seconds", "to_mjd_utc_days", "to_mjd_utc_seconds", "to_jde_tai_days",
+        "to_jde_tai_seconds", "to_jde_utc_days", "to_jde_utc_seconds", "to_tt_seconds", "to_tt_days", "to_tt_centuries_j2k",
+        "to_jde_tt_days", "to_mjd_tt_days", "to_unix_seconds", "to_unix_milliseconds", "to_unix_days", "to_tai_seconds",
+        "to_tai_days", "to_utc_seconds", "to_utc_days", "to_gpst_seconds", "to_gpst_days"];
+    for _ in 0..n {
+        let ts = *r.pick(&NONDYN);
+        // within +/- 10 000 years of 1900
+        let e = match r.below(3) {
+            0 => epoch_total(r, ts),
+            _ => (r.range_i64(-3_652_500, 3_652_500) as i128) * DAY + r.below(DAY as u64) as i128 - ref_off(ts),
+        }
+        .clamp(-3_700_000 * DAY, 3_700_000 * DAY);
+        let es = format!("{}:{}", dstr(e), ts);
+        match r.below(12) {
+            0 | 1 | 2 => writeln!(out, "acc17 {} {}", *r.pick(&ACCD), es).unwrap(),
+            3 | 4 | 5 | 6 => writeln!(out, "accf {} {}", *r.pick(&ACCF), es).unwrap(),
+            7 => {
+                let k = *r.pick(&["TAI", "UTC", "GPST", "QZSST", "GST", "BDT"]);
+                writeln!(out, "from_mjd {} {}", k, f2s(f_days(r))).unwrap()
+            }
+            8 => {
+                let k = *r.pick(&["TAI", "UTC", "GPST", "QZSST", "GST", "BDT"]);
+                writeln!(out, "from_jde {} {}", k, f2s(f_days(r) + 2_400_000.5)).unwrap()
+            }
+            9 => {
+                let x = match r.below(4) {
+                    0 => r.range_i64(-4_000_000_000, 4_000_000_000) as f64,
+                    1 => r.range_i64(-4_000_000_000_000, 4_000_000_000_000) as f64 / 1000.0,
+                    2 => *r.pick(&[0.0, 1.0, -1.0, 63072000.0, 1483228800.0, 1483228799.5]),
+                    _ => (r.next() as f64 / u64::MAX as f64 - 0.5) * 6.0e11,
+                };
+                let op = *r.pick(&["from_unix_s", "from_unix_ms"]);
+                writeln!(out, "{} {}", op, f2s(if op == "from_unix_ms" { x * 1000.0 } else { x })).unwrap()
+            }
+            10 => writeln!(out, "from_unix_dur {}", dstr(e)).unwrap(),
+            _ => {
+                let kind = *r.pick(&["mjd_tai", "mjd_utc", "jde_tai", "jde_utc", "unix_s", "unix_ms"]);
+                let x = match kind {
+                    "mjd_tai" | "mjd_utc" => f_days(r),
+                    "jde_tai" | "jde_utc" => f_days(r) + 2_400_000.5,
+                    "unix_s" => r.range_i64(-4_000_000_000_000, 4_000_000_000_000) as f64 / 1000.0,
+                    _ => r.range_i64(-4_000_000_000_000, 4_000_000_000_000) as f64,
+                };
+                writeln!(out, "view_rt {} {}", kind, f2s(x)).unwrap()
+            }
+        }
+    }
+}
+
 pub fn inputs_c12(r: &mut Rng, n: usize, _tier: &str, out: &mut dyn Write) {
     for _ in 0..n {
         let a = *r.pick(&NONDYN);
@@ -632,6 +696,65 @@ pub fn exec(op: &str, a: &[&str]) -> Option<String> {
                 "to_jde_tdb_duration" => e.to_jde_tdb_duration(),
                 _ => return None,
             })
+        }
+        // ---- C17
+        "acc17" => {
+            let e = s2e(a[1]);
+            okd(match a[0] {
+                "to_jde_tai_duration" => e.to_jde_tai_duration(),
+                "to_jde_utc_duration" => e.to_jde_utc_duration(),
+                "to_jde_tt_duration" => e.to_jde_tt_duration(),
+                "to_mjd_tt_duration" => e.to_mjd_tt_duration(),
+                "to_tt_since_j2k" => e.to_tt_since_j2k(),
+                _ => return None,
+            })
+        }
+        "accf" => {
+            let e = s2e(a[1]);
+            let v = match a[0] {
+                "to_mjd_tai_days" => e.to_mjd_tai_days(),
+                "to_mjd_tai_seconds" => e.to_mjd_tai_seconds(),
+                "to_mjd_utc_days" => e.to_mjd_utc_days(),
+                "to_mjd_utc_seconds" => e.to_mjd_utc_seconds(),
+                "to_jde_tai_days" => e.to_jde_tai_days(),
+                "to_jde_tai_seconds" => e.to_jde_tai_seconds(),
+                "to_jde_utc_days" => e.to_jde_utc_days(),
+                "to_jde_utc_seconds" => e.to_jde_utc_seconds(),
+                "to_tt_seconds" => e.to_tt_seconds(),
+                "to_tt_days" => e.to_tt_days(),
+                "to_tt_centuries_j2k" => e.to_tt_centuries_j2k(),
+                "to_jde_tt_days" => e.to_jde_tt_days(),
+                "to_mjd_tt_days" => e.to_mjd_tt_days(),
+                "to_unix_seconds" => e.to_unix_seconds(),
+                "to_unix_milliseconds" => e.to_unix_milliseconds(),
+                "to_unix_days" => e.to_unix_days(),
+                "to_tai_seconds" => e.to_tai_seconds(),
+                "to_tai_days" => e.to_tai_days(),
+                "to_utc_seconds" => e.to_utc_seconds(),
+                "to_utc_days" => e.to_utc_days(),
+                "to_gpst_seconds" => e.to_gpst_seconds(),
+                "to_gpst_days" => e.to_gpst_days(),
+                _ => return None,
+            };
+            Some(format!("ok {}", f2s(v)))
+        }
+        "from_mjd" => oke(Epoch::from_mjd_in_time_scale(s2f(a[1]), s2ts(a[0]))),
+        "from_jde" => oke(Epoch::from_jde_in_time_scale(s2f(a[1]), s2ts(a[0]))),
+        "from_unix_s" => oke(Epoch::from_unix_seconds(s2f(a[0]))),
+        "from_unix_ms" => oke(Epoch::from_unix_milliseconds(s2f(a[0]))),
+        "from_unix_dur" => oke(Epoch::from_unix_duration(s2d(a[0]))),
+        "view_rt" => {
+            let x = s2f(a[1]);
+            let y = match a[0] {
+                "mjd_tai" => Epoch::from_mjd_tai(x).to_mjd_tai_days(),
+                "mjd_utc" => Epoch::from_mjd_utc(x).to_mjd_utc_days(),
+                "jde_tai" => Epoch::from_jde_tai(x).to_jde_tai_days(),
+                "jde_utc" => Epoch::from_jde_utc(x).to_jde_utc_days(),
+                "unix_s" => Epoch::from_unix_seconds(x).to_unix_seconds(),
+                "unix_ms" => Epoch::from_unix_milliseconds(x).to_unix_milliseconds(),
+                _ => return None,
+            };
+            Some(format!("ok {}", f2s(y)))
         }
         // ---- C06
         "utcrt" => {
